@@ -214,6 +214,25 @@ class ContractMixin:
             return mk_str(z3.Function("str_lower", z3.StringSort(), z3.StringSort())(args[0].t))
         if name == "module":
             return self.module_ref(z3.simplify(args[0].t).as_string())
+        if name == "log_result_field":
+            # a field of the object a logged call returned, *as of the end of that call*
+            suffix = z3.simplify(args[0].t).as_string()
+            field = z3.simplify(args[1].t).as_string()
+            calls = [env for (q, env) in st.log if q.endswith(suffix) and "__result__" in env]
+            if not calls:
+                ty = None
+                for table in (dsl.REG.contracts, dsl.REG.interfaces):
+                    for qn, d in table.items():
+                        if qn.endswith(suffix) and isinstance(d.returns, TRef):
+                            ty = self.field_type(d.returns.cls, field)
+                return fresh(ty or Str, "nocall")
+            res = calls[-1]["__result__"]
+            saved = st.heap
+            st.heap = calls[-1]["__heap_after__"]
+            try:
+                return self.heap_read(st, res, field)
+            finally:
+                st.heap = saved
         if name == "log_result":
             suffix = z3.simplify(args[0].t).as_string()
             calls = [env for (q, env) in st.log if q.endswith(suffix) and "__result__" in env]
@@ -396,6 +415,7 @@ class ContractMixin:
             st.assume(self.eval_in_contract(ci, enode, st, {"result": result}))
         if log_entry is not None:
             log_entry["__result__"] = result
+            log_entry["__heap_after__"] = dict(st.heap)       # the heap as the callee left it (for log_result_field)
         yield st, result
 
     def assume_wellformed_result(self, st, v):
